@@ -852,8 +852,18 @@ pub fn plans_for(prop: &str, thorough: bool) -> Vec<Plan> {
                 });
                 // every range, including inverted / empty / out-of-bounds ones, with collapse
                 plans.push(Plan {
-                    name: "block statements x every pair of range points x collapse",
-                    cases: stmt.iter().filter(|c| c.dial == Dial::Core && (c.text.contains("end") || c.text.contains('{'))).cloned().collect(),
+                    name: "block statements (alone and behind another statement) x every pair of range points x collapse",
+                    cases: {
+                        let sel: Vec<Case> = stmt.iter().filter(|c| c.dial == Dial::Core && (c.text.contains("end") || c.text.contains('{'))).cloned().collect();
+                        let mut v = sel.clone();
+                        // behind another statement the range can start after byte 0 and still contain the whole block statement
+                        for c in sel {
+                            let mut d = c.clone();
+                            d.text = format!("local p = 1\n{}", c.text);
+                            v.push(d);
+                        }
+                        v
+                    },
                     cfgs: cross(false, |b| vec![b, Cfg { cs: 3, ..b }, Cfg { cs: 3, sort: true, ..b }]),
                     widths: Widths::Classes,
                     ranges: Ranges::TokenPoints,
